@@ -383,6 +383,14 @@ theorem pending_verdict_lost_on_restart_witness :
         = [.ok, .verdict true, .ok, .verdict true, .ok, .verdict true] := by
   decide
 
+/-- OBLIGATION on regenerated facts: the lifetime the engine gives a stored request (`NewAPIStream` →
+    `environment.GetServerTimeout`, handed to the `ExpireWatcher`) is the configured number of SECONDS — part (d)'s
+    `live_request_survives` takes the deadline of a store as given; a unit slip here makes the clean-up goroutine
+    remove the request of a transaction that is still running. -/
+theorem stored_request_lifetime_in_seconds :
+    Generated.timingBodies =
+      [("GetServerTimeout", "func() (time.Duration, error) => raw := os.Getenv(lunarServerTimeoutEnvVar); if raw == \"\" { return spoeServerTimeoutSecDefault, nil }; seconds, err := strconv.Atoi(raw); if err != nil { return 0, err }; return time.Second * time.Duration(seconds), nil")] := rfl
+
 /-- non-vacuity: request 2 is counted at second 58 of a 60 s window (2 of 5), metrics are read after the window
     has ended, and request 2 is admitted -/
 example : (Observe.run ⟨5, 60 * C01.nsPerSec⟩ C01.Lvl.init
